@@ -645,10 +645,10 @@ func runC34(r *simrt.Run) {
 	defer simrt.SetMapOrder(simrt.MapOrderNative, 0)
 	inBubble(r, func(s *simrt.Sched) {
 		w := &c34World{r: r, s: s}
-		switch r.Draw("cfg", 3) {
-		case 0:
+		switch r.Draw("cfg", 4) {
+		case 0, 1:
 			w.mode = relaycore.Stateless
-		case 1:
+		case 2:
 			w.mode = relaycore.Stateful
 		default:
 			w.mode = relaycore.CrossValidation
@@ -771,6 +771,11 @@ func runC34(r *simrt.Run) {
 			r.Logf("leftover state-machine goroutine after the final instruction: %s", l)
 			r.Probe("leak:" + name)
 			r.Extra["sm_goroutines_left"]++
+			if os.Getenv("C34_LEAK_IS_VIOLATION") == "1" && !strings.HasSuffix(name, "unified_relay_state_machine.go:239") {
+				// diagnostic switch (off in checks): get a minimised schedule for a helper-goroutine leak
+				w.violation("state-machine-goroutine-leak", name[strings.LastIndex(name, ":")+1:], "a helper goroutine of the state machine is still alive 500 ms (fake) after the final instruction and context cancellation: "+l)
+				return
+			}
 			if strings.HasSuffix(name, "unified_relay_state_machine.go:239") {
 				w.violation("state-machine-still-running-after-final", "main-loop", "the state machine's main loop goroutine is still alive 500 ms (fake) after the final instruction and context cancellation: "+l)
 				return
